@@ -40,6 +40,39 @@ var c01Pins = []pin{
 	{"umpToCaseHeader", "tpl", `"case " ⟨unionCSName(p0, p1.CaseId)⟩ ": " ?(((p1.VarName ne "_") && (p1.VarName ne ""))){⟨p1.VarName⟩ " := " ⟨p2⟩ ".Value" " "}`, "the case label is the struct U_C of the named case; the bound variable is its Value"},
 	{"umrToCase", "tpl", `⟨umpToCaseHeader(p1, p3.UnionPattern, p2)⟩ ⟨p0(p3.Body)⟩ " "`, "case header then the arm body"},
 	{"drToCase", "tpl", `"default: " ⟨p0(p1)⟩ " "`, "default arm"},
+	// dispatchers and wrappers of the emitter modules
+	{"ExprToGo", "tpl", `match(p1){Expr_EBoolLiteral: %t⟨payload(Expr_EBoolLiteral)⟩; Expr_EGoEvalExpr: ⟨reinterpretEscape(payload(Expr_EGoEvalExpr).GoStmt)⟩; Expr_EStringLiteral: "\"" ⟨payload(Expr_EStringLiteral)⟩ "\""; Expr_ESInterP: ⟨sinterpToGo(payload(Expr_ESInterP))⟩; Expr_EIntImm: %d⟨payload(Expr_EIntImm)⟩; Expr_EUnit: ""; Expr_EFieldAccess: ⟨faToGo(ExprToGo(p0, _), payload(Expr_EFieldAccess))⟩; Expr_EVarRef: ⟨varRefName(payload(Expr_EVarRef))⟩; Expr_ESlice: ⟨sliceToGo(FTypeToGo, ExprToGo(p0, _), payload(Expr_ESlice))⟩; Expr_ETupleExpr: ⟨tupleToGo(ExprToGo(p0, _), payload(Expr_ETupleExpr))⟩; Expr_ELambda: ⟨lambdaToGo(blockToGoReturn(p0, ExprToGo(p0, _), reToGoReturn(p0, ExprToGo(p0, _), _), _), payload(Expr_ELambda))⟩; Expr_EBinOpCall: ⟨binOpToGo(ExprToGo(p0, _), payload(Expr_EBinOpCall))⟩; Expr_ERecordGen: ⟨rgToGo(ExprToGo(p0, _), payload(Expr_ERecordGen))⟩; Expr_EReturnableExpr: ⟨reToGo(p0, ExprToGo(p0, _), payload(Expr_EReturnableExpr))⟩; Expr_EFunCall: ⟨fcToGo(FTypeToGo, ExprToGo(p0, _), payload(Expr_EFunCall))⟩; Expr_ELazyBlock: ⟨lbToGo(blockToGoReturn(p0, ExprToGo(p0, _), reToGoReturn(p0, ExprToGo(p0, _), _), _), payload(Expr_ELazyBlock))⟩}`,
+		"every expression kind goes to its own emitter; literals are pasted verbatim (bool by %t, string between quotes, GoEval text after reinterpretEscape)"},
+	{"StmtToGo", "tpl", `match(p0){Stmt_SLetVarDef: match(payload(Stmt_SLetVarDef)){LLetVarDef_LLOneVarDef: ⟨lvdToGo(ExprToGo(StmtToGo, _), payload(LLetVarDef_LLOneVarDef))⟩; LLetVarDef_LLDestVarDef: ⟨ldvdToGo(ExprToGo(StmtToGo, _), payload(LLetVarDef_LLDestVarDef))⟩}; Stmt_SExprStmt: ⟨ExprToGo(StmtToGo, payload(Stmt_SExprStmt))⟩}`,
+		"a statement is a let (one variable or destructuring) or an expression statement, each through its emitter"},
+	{"RootStmtToGo", "tpl", `match(p0){RootStmt_RSImport: ⟨imToGo(payload(RootStmt_RSImport))⟩; RootStmt_RSPackage: ⟨pmToGo(payload(RootStmt_RSPackage))⟩; RootStmt_RSPackageInfo: ""; RootStmt_RSRootFuncDef: ⟨rfdToGo(blockToGoReturn(StmtToGo, ExprToGo(StmtToGo, _), reToGoReturn(StmtToGo, ExprToGo(StmtToGo, _), _), _), payload(RootStmt_RSRootFuncDef))⟩; RootStmt_RSRootVarDef: ⟨rootVarDefToGo(ExprToGo(StmtToGo, _), payload(RootStmt_RSRootVarDef))⟩; RootStmt_RSDefStmt: ⟨dsToGo(payload(RootStmt_RSDefStmt))⟩; RootStmt_RSMultipleDefs: ⟨mdToGo(payload(RootStmt_RSMultipleDefs))⟩}`,
+		"every root statement kind goes to its own emitter; package_info emits nothing"},
+	{"lambdaToGo", "tpl", `"func (" join(", "; slice.Map(paramsToGo, p1.Params)) ")" ⟨FTypeToGo(blockToType(ExprToType, p1.Body))⟩ "{ " ⟨p0(p1.Body)⟩ " }"`,
+		"a lambda is a Go function literal: parameters in order, the body's type as result, the body with return"},
+	{"lfdToGo", "tpl", `"func " ⟨p1.Fvar.Name⟩ "(" ⟨lfdParamsToGo(p1)⟩ ") " ⟨FTypeToGo(blockToType(ExprToType, p1.Body))⟩ "{ " ⟨p0(p1.Body)⟩ " }"`,
+		"a function definition: name, parameters in order, the body's type as result, the body with return"},
+	{"meToGo", "tpl", `⟨wrapFunCall(FTypeToGo, ExprToType(meToExpr(p2)), meToGoReturn(p0, p1, p2))⟩`,
+		"a match used as a value is an invoked function literal around the returning form"},
+	{"reToGo", "tpl", `match(p2){ReturnableExpr_RBlock: ⟨blockToGo(p0, p1, reToGoReturn(p0, p1, _), payload(ReturnableExpr_RBlock))⟩; ReturnableExpr_RMatchExpr: ⟨meToGo(p1, blockToGoReturn(p0, p1, reToGoReturn(p0, p1, _), _), payload(ReturnableExpr_RMatchExpr))⟩}`,
+		"block or match as a value"},
+	{"reToGoReturn", "tpl", `match(p2){ReturnableExpr_RBlock: ⟨blockToGoReturn(p0, p1, reToGoReturn(p0, p1, _), payload(ReturnableExpr_RBlock))⟩; ReturnableExpr_RMatchExpr: ⟨meToGoReturn(p1, blockToGoReturn(p0, p1, reToGoReturn(p0, p1, _), _), payload(ReturnableExpr_RMatchExpr))⟩}`,
+		"block or match in returning position"},
+	{"blockToGoReturn", "tpl", `⟨buildReturn(p0, p1, p2, p3.Stmts, p3.FinalExpr)⟩`,
+		"a block is its statements followed by the returned final expression"},
+	{"imToGo", "tpl", `"import \"" ⟨p0⟩ "\""`,
+		"import line"},
+	{"pmToGo", "tpl", `"package " ⟨p0⟩`,
+		"package clause"},
+	{"dsToGo", "tpl", `match(p0){DefStmt_DRecordDef: ⟨rdfToGo(payload(DefStmt_DRecordDef))⟩; DefStmt_DUnionDef: ⟨udfToGo(payload(DefStmt_DUnionDef))⟩}`,
+		"record or union definition"},
+	{"mdToGo", "tpl", `join(" "; slice.Map(dsToGo, p0.Defs))`,
+		"a group of type definitions in source order"},
+	{"umrHasNoCaseVar", "tpl", `⟨((p0.UnionPattern.VarName eq "") || (p0.UnionPattern.VarName eq "_"))⟩`,
+		"an arm binds no variable when its name is empty or _"},
+	{"umrHasCaseVar", "tpl", `match(p0){UnionMatchRules_UCaseOnly: ⟨not(slice.Forall(umrHasNoCaseVar, payload(UnionMatchRules_UCaseOnly)))⟩; UnionMatchRules_UCaseWD: ⟨not(slice.Forall(umrHasNoCaseVar, payload(UnionMatchRules_UCaseWD).Unions))⟩}`,
+		"the switch needs its temporary exactly when some arm binds a variable"},
+	{"meToExpr", "tpl", `⟨New_Expr_EReturnableExpr(New_ReturnableExpr_RMatchExpr(p0))⟩`,
+		"a match as an expression node"},
 	// string match: the pattern is the literal's token text (already in Go's escaped form, C11), pasted between quotes
 	{"smrToCase", "tpl", `"case \"" ⟨p1.LiteralPattern⟩ "\":" " " ⟨p0(p1.Body)⟩ " "`, "a string pattern is the case label \"<token text>\" — the text is not escaped a second time"},
 	{"svrToCase", "tpl", `"default: " ⟨p0(p1.Body)⟩ " "`, "the variable rule is the default arm"},
